@@ -1,6 +1,7 @@
 mod common;
 mod cursor;
 mod store;
+mod sync_replay;
 mod log_replay;
 mod shimmark;
 mod mani_run;
@@ -14,6 +15,8 @@ fn main() {
     match args[1].as_str() {
         "cursor-replay" => cursor::main(&args[2..]),
         "store-run" => store::main(&args[2..]),
+        "lru-replay" => sync_replay::lru(&args[2..]),
+        "coalesce-stress" => sync_replay::coalesce(&args[2..]),
         "store-recover" => store::recover(&args[2..]),
         "log-replay" => log_replay::main(&args[2..]),
         "mani-run" => mani_run::run(&args[2..]),
